@@ -27,7 +27,7 @@ var mtReal = map[string]string{
 	"dockm": types.MediaTypeDocker2Manifest, "dockl": types.MediaTypeDocker2ManifestList,
 	"cfg": types.MediaTypeOCI1ImageConfig, "dcfg": types.MediaTypeDocker2ImageConfig,
 	"empty": types.MediaTypeOCI1Empty, "lay": types.MediaTypeOCI1Layer, "other": "application/x-other",
-	"octet": "application/octet-stream", "json": "application/json",
+	"octet": "application/octet-stream", "json": "application/json", "ocimx": types.MediaTypeOCI1Manifest + "/extra",
 	"foreign": "application/vnd.oci.image.layer.nondistributable.v1.tar+gzip", "dforeign": "application/vnd.docker.image.rootfs.foreign.diff.tar.gzip",
 }
 var mtTok = map[string]string{}
